@@ -46,6 +46,10 @@ class Stream:
         self.draws += 1
         return out
 
+    def fork(self, *names) -> "Stream":
+        """An independent stream named below this one (does not consume from it)."""
+        return Stream(self._key, *names)
+
     def u64(self) -> int:
         return int.from_bytes(self.bytes(8), "big")
 
